@@ -198,7 +198,7 @@ def count_features(prog):
     import json
     txt = json.dumps(prog)
     feats = {}
-    for key, tag in (('"inner"', "nested_fsm"), ('"abort"', "aborted_elif_branch"), ('"refused"', "refused_statement"), ('"clk"', "clock_signal_read"), ('"rst"', "reset_signal_read"), ('"if"', "if"), ('"switch"', "switch"), ('"fsm"', "fsm"), ('"part"', "part"), ('"array"', "array"),
+    for key, tag in (('_multi"', "multi_domain_inserter"), ('"inner"', "nested_fsm"), ('"abort"', "aborted_elif_branch"), ('"refused"', "refused_statement"), ('"clk"', "clock_signal_read"), ('"rst"', "reset_signal_read"), ('"if"', "if"), ('"switch"', "switch"), ('"fsm"', "fsm"), ('"part"', "part"), ('"array"', "array"),
                      ('"cat"', "cat"), ('"as_signed"', "as_signed"), ('"matches"', "matches"), ('"reset"', "reset_inserter"),
                      ('"enable"', "enable_inserter"), ('"rename"', "domain_renamer"), ('"print"', "print"),
                      ('"assert"', "assert"), ('"-', "dontcare_pattern")):
